@@ -298,7 +298,7 @@ func countMethodIfSwitch(statement IBlockStatementContext, bsInfo *bs_domain.Fun
 }
 
 func (s *BadSmellListener) EnterAnnotation(ctx *AnnotationContext) {
-	if currentClzType == "Class" && ctx.QualifiedName().GetText() == "Override" {
+	if currentClzType == "Class" && ctx.QualifiedName() != nil && ctx.QualifiedName().GetText() == "Override" {
 		currentClassBs.OverrideSize++
 	}
 }
